@@ -16,7 +16,7 @@ func ruleVERB1(c *Ctx) {
 	encBuf := p.Field("jsontext", "encodeBuffer", "Buf")
 	n := 0
 	ord := map[string]int{}
-	for _, f := range p.FuncsIn("json", "jsontext", "v1") {
+	for _, f := range p.FuncsIn("json", "jsontext", "v1", "jsonwire") {
 		if f.Body() == nil {
 			continue
 		}
